@@ -111,6 +111,8 @@ def pair_task(t, res):
                     pass
                 if rel != "same_object":
                     res.nontrivial((fingerprint(sa), fingerprint(sb)))
+                    if want or (i + j) % 97 == 0:
+                        res.sample(dict(a=sa, b=sb, relation=rel, eq=bool(got)), cap=3)
 
 
 def replay_pair(d, res):
@@ -239,6 +241,8 @@ def endpoint_task(t, res):
                     res.fail(f"C09|endpoint|wrongexc|{cname}|{which}|{klass}|{type(ex).__name__}",
                              f"{cname} on {r}x{c} start={s} end={e} raised {type(ex).__name__} instead of ValueError/accepting", rd)
                 res.nontrivial(("ep", r, c, s, e, cname))
+                if not ok_expected:
+                    res.sample(dict(ctor=cname, shape=[r, c], start=s, end=e, expected="ValueError"), cap=2)
 
 
 def replay_endpoint(d, res):
